@@ -58,9 +58,24 @@ func runC07(r *R) {
 	faultAt := int64(-1)
 	if f.Biased(4, 3, 4) == 1 && len(file) > 0 {
 		faultAt = int64(f.Draw(len(file)))
+		if f.Draw(2) == 0 {
+			// half of the faults land one to three bytes into a line (inside a size field, a header name, a method)
+			var starts []int
+			for i, c := range file {
+				if c == '\n' && i+1 < len(file) {
+					starts = append(starts, i+1)
+				}
+			}
+			if len(starts) > 0 {
+				faultAt = int64(min(starts[f.Draw(len(starts))]+1+f.Draw(3), len(file)-1))
+			}
+		}
 		plan.ReadErrAt, _ = faultAt, syscall.EIO
+		// one time in three the error is transient: that Read call fails, the next one succeeds
+		plan.ReadErrOnce = f.Draw(3) == 0
 	}
-	r.Sample(map[string]any{"format": kind, "layout": l.String(), "entries": n, "passes": passes, "preload": preload, "consumers": cons, "read_chunk": plan.ReadChunk, "zero_reads": plan.ZeroReads, "eio_at": faultAt, "file": clipB(file)})
+	transient := plan.ReadErrOnce
+	r.Sample(map[string]any{"format": kind, "layout": l.String(), "entries": n, "passes": passes, "preload": preload, "consumers": cons, "read_chunk": plan.ReadChunk, "zero_reads": plan.ZeroReads, "eio_at": faultAt, "eio_transient": transient, "file": clipB(file)})
 	if (n >= 2 && passes >= 2) || faultAt >= 0 {
 		r.NonTrivial()
 	}
@@ -81,8 +96,8 @@ func runC07(r *R) {
 		r.Fail("never-ends/"+kind, "%d items delivered, then: %s\nfile: %s", len(out.All), out.Sim.Detail, clipB(file))
 		return
 	}
-	if faultAt >= 0 && out.DiskFired["read-eio"] > 0 {
-		c07Fault(r, kind, out, pass, passes, file, faultAt, preload)
+	if faultAt >= 0 && out.DiskFired["read-eio"]+out.DiskFired["read-eio-transient"] > 0 {
+		c07Fault(r, kind, out, pass, passes, file, faultAt, preload, transient)
 		return
 	}
 	if out.NewErr != nil {
@@ -175,10 +190,18 @@ func c07Diff(a, b gotReq) string {
 
 // c07Fault: after an injected read error the provider may fail, but what it delivered must be a prefix of the
 // expected sequence made of entries wholly before the fault offset, never altered data.
-func c07Fault(r *R, kind string, out *provOut, pass []gotReq, passes int, file []byte, faultAt int64, preload bool) {
+func c07Fault(r *R, kind string, out *provOut, pass []gotReq, passes int, file []byte, faultAt int64, preload bool, transient bool) {
 	r.Note("fault-batch")
 	n := len(pass)
-	if out.NewErr == nil && out.RunErr == nil {
+	if transient && out.NewErr == nil && out.RunErr == nil {
+		// a transient error may be survived (the read is repeated and succeeds): then nothing may be missing or
+		// altered; the checks below compare what was delivered, here the count
+		if len(out.All) != n*passes {
+			r.Fail("transient-read-error-swallowed/"+kind, "a transient read error at byte %d of %d was injected (one Read call failed, the next succeeded); no error was reported, yet %d items were delivered instead of %d (%d entries x %d passes)\nfile: %s",
+				faultAt, len(file), len(out.All), n*passes, n, passes, clipB(file))
+			return
+		}
+	} else if out.NewErr == nil && out.RunErr == nil {
 		// the json array is read when the provider is built; every other path must report the error
 		r.Fail("read-error-swallowed/"+kind, "a read error at byte %d of %d was injected (and fired) but neither construction nor Provider.Run reported an error; %d items delivered", faultAt, len(file), len(out.All))
 		return
@@ -205,6 +228,13 @@ func c07Fault(r *R, kind string, out *provOut, pass []gotReq, passes int, file [
 				return
 			}
 		}
+	}
+	if out.BadAmmo > 0 || len(out.ExtractEr) > 0 {
+		// the decoder framed an entry out of the bytes around the failed read: the entries of a well-formed file are
+		// delivered as written or not at all
+		r.Fail("fault/garbage-entry/"+kind, "with a read error at byte %d (transient=%v) %d entries were handed out that cannot be built into a request (%v); error reported: construction %v, run %v\nfile: %s",
+			faultAt, transient, out.BadAmmo+len(out.ExtractEr), out.ExtractEr, out.NewErr, out.RunErr, clipB(file))
+		return
 	}
 	if faultAt == 0 && len(out.All) > 0 {
 		r.Fail("fault/delivered-past-error/"+kind, "%d items delivered although not a single byte of the file could be read", len(out.All))
